@@ -36,6 +36,9 @@ def profile(rng, flavour):
     elif flavour == "long":          # more than one storage chunk (100 steps): the series are extended while history exists
         p.update(nops=rng.choice([420, 520]), levels=4, ttls=[0, 1, 2, 3], p_neg=0.0)
         p["w"].update(sub=40, can=6, tick=32, match=6, cont=2, run=2, probe=4)
+    elif flavour == "farfine":
+        p.update(nops=rng.choice([40, 60]), levels=5, maxvol=rng.choice([1, 3]), p_neg=0.0)
+        p["w"].update(match=10)
     elif flavour == "jumpy":         # Market._set_time: several steps at once while orders with different lives rest
         p.update(ttls=[1, 2, 3, 4, 6, 0], levels=4, nops=rng.choice([40, 60]))
         p["w"].update(tick=8, jump=10, can=6)
@@ -51,11 +54,15 @@ def one_history(seed, flavour="mixed", exact=True):
         flavour = rng.choice(["plain", "plain", "mo-heavy", "auction", "ttl", "halt", "deep", "deep", "penny", "jumpy", "sweep"])
     pr = profile(rng, flavour)
     tick, den = rng.choice(EXACT_GRIDS if exact else DECIMAL_GRIDS)
+    base = 0.0
+    if flavour == "farfine":
+        # a fine grid far from zero: price / tick above 4e9 (adjacent levels differ by 2e-10 of the price), everything dyadic
+        tick, den, base, exact = 2.0 ** -17, 2, 32768.0, True
     mid = rng.randint(8, 40)                    # centre of the requested prices, in ticks
     if pr.get("penny"):
         mid = rng.choice([1, 2, 2, 3])
     p0 = mid * den + rng.choice([0, 0, 1]) * (den // 2 if exact else 0)
-    s = BookSession(tick=tick, den=den, exact=exact, p0=p0)
+    s = BookSession(tick=tick, den=den, exact=exact, p0=p0, base=base)
     cont = rng.random() < pr["p_cont"]
     ops = list(pr["w"].keys())
     wts = [pr["w"][k] for k in ops]
@@ -97,6 +104,8 @@ def _drive(s, rng, pr, ops, wts, cont, mid, den, exact, tick):
                 req += rng.randint(1, den - 1)
             if pr.get("penny") and lvl <= 0:
                 req = rng.randint(1, den - 1)          # positive, below one tick
+                if rng.random() < 0.35:
+                    req = lvl * den - rng.randint(0, den - 1)      # zero or negative, on or off the grid (Order only warns)
             vol = rng.randint(1, pr["maxvol"])
             if pr.get("deep") and rng.random() < 0.6:
                 lvl = mid + (pr["levels"] if buy else -pr["levels"]) * rng.choice([1, 1, 0])   # sweeping price
@@ -112,7 +121,7 @@ def _drive(s, rng, pr, ops, wts, cont, mid, den, exact, tick):
                 # decimal grids: on-grid floats as the samples produce them, or off-grid by a fraction of a tick
                 req_float = max(1, lvl) * tick + (rng.choice([0.0, 0.0, 0.3, 0.5, 0.999]) * tick if rng.random() < 0.5 else 0.0)
                 if pr.get("penny") and lvl <= 0:
-                    req_float = rng.choice([0.3, 0.5, 0.999]) * tick
+                    req_float = rng.choice([0.3, 0.5, 0.999, -0.5, -1.0, -1.25]) * tick
             e = s.submit(buy, mo, req, vol, ttl, neg=neg, req_float=req_float)
             follow = e is not None and neg == ""
         elif op == "can":
